@@ -144,7 +144,15 @@ def age_variables(fn, kind, SP, ctx):
                         role = 'a8' if d[1] <= 8 else 'a12'
                 elif isinstance(cexpr, ast.Call) and call_name(cexpr) == 'prior_date':
                     args = [ast.unparse(a) for a in cexpr.args]
-                    if args == [match, '8', '31']:
+                    folded_args = None
+                    if len(cexpr.args) == 3 and args[0] == match and args[1:] != ['8', '31']:
+                        # month and day written as named constants: their values by folding
+                        try:
+                            from .. import fold as _f2
+                            folded_args = [_f2.Folder().expr(a, dict(_MODENV.get('env') or {})) for a in cexpr.args[1:]]
+                        except Exception:
+                            folded_args = None
+                    if args == [match, '8', '31'] or folded_args == [8, 31]:
                         role = 'a8'
                     else:
                         ctx.finding('R1', key + ' cut-off date', UKA, st.lineno,
